@@ -70,6 +70,8 @@ class SmilesToken(BigSMILESbase):
             raise RuntimeError(
                 f"Token {big_smiles_ext} has unbalanced branches, this is not supported."
             )
+        if big_smiles_ext.count("[") != big_smiles_ext.count("]"):
+            raise RuntimeError(f"Token {big_smiles_ext} has unbalanced brackets.")
 
         elements = []
         current_string = self._raw_text
